@@ -5,7 +5,9 @@
     dict / set comprehensions, dict(...), set(...)                       (lossy unless keyed by the element itself)
     local names bound once, calls of nested functions / self-methods whose body is a single return
 
-to a terminal expression (for instance `self.keys()`), and reports {"terminal": text, "filtered": [...], "lossy": [...]}.
+to a terminal expression (for instance `self.keys()`), and reports {"terminal": text, "filtered": [...], "lossy": [...],
+"conds": [(element variable, filter test)]} - the last for filters of identity generators, which entry_facts() turns into facts
+about the consuming loop's variable.
 """
 
 from __future__ import annotations
@@ -29,7 +31,7 @@ def _single_return(fn):
 
 
 def source_of(fnode, expr, prog=None, func=None, depth=0, out=None):
-    out = out if out is not None else {"terminal": None, "filtered": [], "lossy": []}
+    out = out if out is not None else {"terminal": None, "filtered": [], "lossy": [], "conds": []}
     if depth > 8 or expr is None:
         out["terminal"] = ast.unparse(expr) if expr is not None else None
         return out
@@ -75,6 +77,9 @@ def source_of(fnode, expr, prog=None, func=None, depth=0, out=None):
         for g in expr.generators:
             for c in g.ifs:
                 out["filtered"].append(ast.unparse(c))
+                # a filter on the element itself (identity projection): usable as a fact about the consumer's loop variable
+                if len(expr.generators) == 1 and isinstance(g.target, ast.Name) and isinstance(expr.elt, ast.Name) and expr.elt.id == g.target.id:
+                    out["conds"].append((g.target.id, c))
         return source_of(fnode, expr.generators[0].iter, prog, func, depth + 1, out)
     if isinstance(expr, (ast.DictComp, ast.SetComp)):
         g = expr.generators[0]
@@ -102,3 +107,20 @@ def _carries(k, names):
     if isinstance(k, ast.Attribute) and k.attr in ("rId", "partname"):
         return True
     return False
+
+
+def entry_facts(fnode, loop, al=None, prog=None, func=None):
+    """Facts that hold for the loop variable on entry to every iteration of `for v in <filtered identity generator>`."""
+    from . import paths as P_
+    import copy
+
+    if not isinstance(loop.target, ast.Name):
+        return []
+    src = source_of(fnode, loop.iter, prog, func)
+    out = []
+    for var, test in src["conds"]:
+        class R(ast.NodeTransformer):
+            def visit_Name(self, n):
+                return ast.Name(id=loop.target.id, ctx=n.ctx) if n.id == var else n
+        out += P_.atoms(R().visit(copy.deepcopy(test)), True, al)
+    return out
